@@ -157,7 +157,16 @@ class Terms:
                     t = ("bin", t[1][:-len("WithOverflow")], t[2], t[3])
                 elif (t[0] == "downcast" and t[2] == "Continue" and e["i"] == 0 and t[1][0] == "call"
                       and short(t[1][1]) == "Try::branch" and len(t[1][2]) == 1):
-                    t = ("try", t[1][2][0])
+                    tried_ = t[1][2][0]
+                    x_ = tried_
+                    while x_[0] in ("ref", "deref"):
+                        x_ = x_[1]
+                    summ = try_helper_summary(self.prog, x_[1]) if (x_[0] == "call" and not self.positions) else None
+                    if summ is not None:
+                        # `helper(args)?` of a private `?`-only helper: its Ok payload with the arguments substituted
+                        t = _subst_params(summ[0], x_[2])
+                    else:
+                        t = ("try", tried_)
                 else:
                     t = ("field", t, e["i"])
             elif k == "index":
@@ -505,3 +514,61 @@ def inline_helper(prog, callee, args):
     if r is None:
         return None
     return _subst_params(r, args)
+
+
+# ---------------------------------------------------------------------- private helpers with `?` early returns
+_TRY_HELPER = {}
+
+
+def try_helper_summary(prog, callee):
+    """(ok payload term, [tried terms]) for a private free function that is straight-line except for `?` early
+    returns and ends in a single `Ok(payload)`: `helper(args)?` in a caller then means "every tried term is Ok" and
+    evaluates to the payload with the arguments substituted.  None if the function has any other branching."""
+    if callee in _TRY_HELPER:
+        return _TRY_HELPER[callee]
+    _TRY_HELPER[callee] = None
+    b = prog.bodies.get(callee) if prog is not None else None
+    if b is None or b.kind != "Fn" or b.j.get("is_pub") or b.j.get("impl_trait") or b.argc == 0 or b.back_edges():
+        return None
+    rty = b.locals[0]["ty"]
+    if not (rty.get("k") == "adt" and rty.get("p") == "std::result::Result"):
+        return None
+    tm = Terms(b, prog)
+    tried = []
+    reach = b.reachable()
+    for i, blk in enumerate(b.blocks):
+        if i not in reach or blk["cleanup"]:
+            continue
+        t = blk["t"]
+        if t["k"] == "switch":
+            d = tm.operand(t["d"])
+            while d[0] in ("ref", "deref"):
+                d = d[1]
+            if not (d[0] == "discr"):
+                return None
+            inner = d[1]
+            while inner[0] in ("ref", "deref"):
+                inner = inner[1]
+            if not (inner[0] == "call" and short(inner[1]) == "Try::branch" and len(inner[2]) == 1):
+                return None
+            tried.append(inner[2][0])
+    oks = []
+    for (bi, si, rv) in tm.defs.whole[0]:
+        r = tm.rvalue(rv) if si != "t" else tm.call_term(rv, bi)
+        if r[0] == "aggr" and r[1].endswith("Result::Ok") and len(r[2]) == 1:
+            oks.append(r[2][0])
+        elif r[0] == "call" and short(r[1]) == "FromResidual::from_residual":
+            continue
+        else:
+            return None
+    if len(oks) != 1 or tm.defs.partial[0] or not tried:
+        return None
+    payload = oks[0]
+    if any(x[0] in ("var", "loopval", "uninit", "rv?") for x in walk(payload)):
+        return None
+    _TRY_HELPER[callee] = (payload, tried)
+    return _TRY_HELPER[callee]
+
+
+def subst_params(t, args):
+    return _subst_params(t, args)
